@@ -222,6 +222,8 @@ pub struct Sim {
     pub next_idx: Vec<[Vec<u64>; 2]>,
     /// slice-rounded bytes submitted on a reliable channel and not yet obtained by the receiver app
     pub outstanding: Vec<[Vec<usize>; 2]>,
+    /// number of reliable messages submitted and not yet obtained (a 0-byte message has no bytes)
+    pub outstanding_n: Vec<[Vec<usize>; 2]>,
     pub healed: bool,
     pub run_seed: u64,
     pub stats_retx: u64,
@@ -243,6 +245,7 @@ impl Sim {
         let mut links_down = Vec::new();
         let mut next_idx = Vec::new();
         let mut outstanding = Vec::new();
+        let mut outstanding_n = Vec::new();
         for k in 0..cfg.n_clients {
             let id = 1000 + k as u64 * 7 + rng.below(5);
             server.add_connection(id);
@@ -254,6 +257,7 @@ impl Sim {
             links_down.push(Link::new(cfg.link_down[k % cfg.link_down.len()].clone()));
             next_idx.push([vec![0u64; 256], vec![0u64; 256]]);
             outstanding.push([vec![0usize; 256], vec![0usize; 256]]);
+            outstanding_n.push([vec![0usize; 256], vec![0usize; 256]]);
         }
         while server.get_event().is_some() {}
         Sim {
@@ -271,6 +275,7 @@ impl Sim {
             log_on: true,
             next_idx,
             outstanding,
+            outstanding_n,
             healed: false,
             run_seed,
             stats_retx: 0,
@@ -368,6 +373,7 @@ impl Sim {
         let accepted = self.can_send(conn, dir, ch, bytes.len());
         if accepted && self.cfg.chan(dir, ch).map_or(false, |c| c.kind.reliable()) {
             self.outstanding[conn][dir as usize][ch as usize] += Self::rounded(bytes.len());
+            self.outstanding_n[conn][dir as usize][ch as usize] += 1;
         }
         self.next_idx[conn][dir as usize][ch as usize] += 1;
         self.fp.u64(0x5B);
@@ -584,6 +590,8 @@ impl Sim {
             {
                 let o = &mut self.outstanding[conn][dir as usize][ch as usize];
                 *o = o.saturating_sub(Self::rounded(m.len()));
+                let n = &mut self.outstanding_n[conn][dir as usize][ch as usize];
+                *n = n.saturating_sub(1);
             }
             self.fp.u64(0xE0 | dir as u64);
             self.fp.u64(m.len() as u64);
